@@ -60,7 +60,12 @@ func (b *BadMetrics) Add(metric []byte, msg []byte, err error) {
 }
 
 func (b *BadMetrics) manage() {
-	clean := time.NewTicker(b.maxAge / 10)
+	// the ticker needs a positive period, whatever max age was configured
+	period := b.maxAge / 10
+	if period <= 0 {
+		period = time.Second
+	}
+	clean := time.NewTicker(period)
 	for {
 		select {
 		case in := <-b.In:
